@@ -132,10 +132,11 @@ type GRTEvent struct {
 	Site   string   `json:"site"`
 	Msg    string   `json:"msg"`
 	Feat   []string `json:"feat"` // mechanical features of the written text (for classification)
+	Bad    []int    `json:"bad"`  // indexes (1-based, into g) of the triples whose own print/parse round trip fails
 }
 
 func grtCase(specs []*VSpec, src string) {
-	ev := GRTEvent{Ev: "GRT", Src: src, Dom: []string{}, G: [][]Rec{}, G2: [][]Rec{}, Feat: []string{}, Out: "ok"}
+	ev := GRTEvent{Ev: "GRT", Src: src, Dom: []string{}, G: [][]Rec{}, G2: [][]Rec{}, Feat: []string{}, Bad: []int{}, Out: "ok"}
 	var ts []*triple.Triple
 	dom := map[string]bool{}
 	for _, sp := range specs {
@@ -165,7 +166,17 @@ func grtCase(specs []*VSpec, src string) {
 			ev.Out, ev.Site, ev.Msg = "add-panic", site, msg
 			return
 		}
-		ev.G, _ = listGraph(g)
+		var listed []*triple.Triple
+		ev.G, listed, _ = listGraphT(g)
+		for i, t := range listed {
+			v := &Value{K: "triple", T: t}
+			want, _ := proj(v, true)
+			s, p, _, _ := printValue(v)
+			r := parseKind("triple", s, true)
+			if p || r.Out != "value" || !sameRecs(r.Recs, want) {
+				ev.Bad = append(ev.Bad, i+1)
+			}
+		}
 		var buf bytes.Buffer
 		var err error
 		if p, site, msg := protect(func() { ev.Wcount, err = bio.WriteGraph(ctx, &buf, g) }); p {
@@ -340,4 +351,16 @@ func runGraphs() {
 	grtCase([]*VSpec{tripleSpec(s, p, intSpec(1<<63-1))}, "int64-max")
 	grtCase([]*VSpec{tripleSpec(s, p, intSpec(-1<<63)), tripleSpec(s, p, intSpec(5))}, "int64-min")
 	grtCase([]*VSpec{tripleSpec(s, p, intSpec(1<<55-1)), tripleSpec(s, p, intSpec(-(1 << 55)))}, "int64-55")
+}
+
+func sameRecs(a, b []Rec) bool {
+	if len(a) != len(b) {
+		return false
+	}
+	for i := range a {
+		if a[i] != b[i] {
+			return false
+		}
+	}
+	return true
 }
